@@ -18,7 +18,8 @@ DevOf(p) == CASE p = "C01" -> {}
               [] p = "C03" -> {"D3", "D4", "D7", "D10", "D11"}
               [] p = "C04" -> {"D3", "D8", "D9", "D10"}
               [] p = "C05" -> {"D4", "D6", "D10"}
-              [] p = "C06" -> {"D5"}
+              [] p = "C06" -> {"D5", "D12"}
+              [] p = "C10" -> {"D12"}
               [] p = "C13" -> {}
 CleanFor(p) == S.dev \cap DevOf(p) = {}
 Terminated(s) == s.st \in Terminal
@@ -58,7 +59,7 @@ C03_NoHalfTransition == ~S.transitioning /\ ~S.failing /\ (Quiescent => ~S.stepp
 C04_KillNoRaise == CleanFor("C04") => "killRaised" \notin S.bad
 \* the step that was in flight may have failed: then EXCEPTED with that step's exception
 \* ... or the environment failed the process itself (fail(), a raising call_soon callback) before the kill took effect
-StepFailed(s) == s.st = "EXCEPTED" /\ (s.cur.val \in {"F", "CB"} \/ \E i \in 1..Len(Prog(s)) : Prog(s)[i].cmd = "raise" /\ Prog(s)[i].val = s.cur.val)
+StepFailed(s) == s.st = "EXCEPTED" /\ (s.cur.val \in {"F", "CB"} \/ (\E i \in 1..Len(s.awt) : s.awt[i].st = "fail" /\ s.awt[i].val = s.cur.val) \/ \E i \in 1..Len(Prog(s)) : Prog(s)[i].cmd = "raise" /\ Prog(s)[i].val = s.cur.val)
 C04_KillNotLost == (CleanFor("C04") /\ Quiescent /\ S.mon.killAcc) => (S.st = "KILLED" \/ StepFailed(S))
 KillCalls(s) == SelectSeq(s.log, LAMBDA e : e[1] = "call" /\ e[2] = "kill")
 ActOf(ret) == CHOOSE a \in 1..Len(S.acts) : ret = "act:" \o ToString(a)
@@ -78,6 +79,8 @@ C04_KillFromAnywhere ==
      LET r == Kill(S, "probe") IN
        /\ (r.exc = NoExc \/ r.s.dev \cap DevOf("C04") # {})
        /\ LET e == Drain(Flush(r.s), ready \o r.s.sched) IN e.st = "KILLED" \/ StepFailed(e) \/ e.dev \cap DevOf("C04") # {}
+
+LastStep(s) == LET st == Steps(s) IN IF st = <<>> THEN 0 ELSE st[Len(st)][2]
 
 (* ---- C05: pause/play is transparent ------------------------------------------------------------ *)
 C05_NoStepWhilePaused == CleanFor("C05") => "stepWhilePaused" \notin S.bad
@@ -106,11 +109,39 @@ C05_Transparent == (CleanFor("C05") /\ OnlyPausePlayResume /\ Terminated(S)) =>
 C06_NoLostWakeup == (CleanFor("C06") /\ Quiescent /\ S.st = "WAITING" /\ S.mon.resumed) => S.pausedF # "none"
 C06_ResumeValue == CleanFor("C06") => "wrongResumeValue" \notin S.bad
 
+\* ... and when every future / child the waiting step awaits has completed (WorkChain)
+AllAwaitedDone(s) == s.cur.aw # <<>> /\ \A j \in 1..Len(s.cur.aw) : s.awt[s.cur.aw[j]].st = "ok"
+C06_NoLostCompletion == (CleanFor("C06") /\ Quiescent /\ S.st = "WAITING" /\ AllAwaitedDone(S)) => S.pausedF # "none"
+
+(* ---- C10: ToContext is a barrier ---------------------------------------------------------------- *)
+CtxVal(ctx, key) == LET at == {j \in 1..Len(ctx) : ctx[j][1] = key} IN IF at = {} THEN None ELSE ctx[CHOOSE j \in at : TRUE][2]
+\* the step that handed awaitables to the context is the one whose command continues with step f
+AwaitersOf(s, f) == {p \in 1..Len(Prog(s)) : Prog(s)[p].cmd = "await" /\ Prog(s)[p].next = f}
+\* at the entry of the step after the barrier: every awaited item is done and found under its key
+\* (an assignment made later to the same key replaces the earlier value)
+LastWithKey(s, aws, j) == \A k \in (j + 1)..Len(aws) : s.awt[aws[k]].key # s.awt[aws[j]].key
+C10_Barrier ==
+  CleanFor("C10") =>
+    \A i \in 1..(Len(S.log) - 1) :
+      (S.log[i][1] = "step" /\ S.log[i + 1][1] = "ctx") =>
+         \A p \in AwaitersOf(S, S.log[i][2]) :
+            LET aws == Prog(S)[p].aws IN
+            \A j \in 1..Len(aws) :
+               /\ S.log[i + 1][3][aws[j]]
+               /\ LastWithKey(S, aws, j) => CtxVal(S.log[i + 1][2], S.awt[aws[j]].key) = "r" \o ToString(aws[j])
+\* a failed or killed item ends the workchain EXCEPTED with that error; the step after the barrier never runs
+Failed(s) == {i \in 1..Len(s.awt) : s.awt[i].st \in {"fail", "killed"}}
+C10_FailureStops ==
+  (CleanFor("C10") /\ Quiescent /\ S.pausedF = "none" /\ Alphabet \subseteq {"complete", "pause", "play"}
+     /\ S.cur.label \in {"WAITING", "EXCEPTED"} /\ Failed(S) \cap S.watched # {}) =>
+        /\ S.st = "EXCEPTED" /\ S.cur.val \in {S.awt[i].val : i \in Failed(S) \cap S.watched}
+        /\ Prog(S)[LastStep(S)].cmd = "await"
+
 (* ---- C13: the returned command alone decides the next step and its arguments ---------------- *)
 C13_Continuation == CleanFor("C13") => "wrongContinuation" \notin S.bad
 
 \* with no interference but resume: the command returned by the last executed step decides the outcome
-LastStep(s) == LET st == Steps(s) IN IF st = <<>> THEN 0 ELSE st[Len(st)][2]
+
 C13_Outcome ==
   (CleanFor("C13") /\ Alphabet \subseteq {"resume"} /\ Quiescent /\ LastStep(S) # 0) =>
      LET d == Prog(S)[LastStep(S)] IN
